@@ -263,8 +263,109 @@ def decl_of(kind_or_top, clocked=None):
 ORDER_INL = {}
 
 
+FAMILY_SRC = """import cohdl
+from cohdl import Bit, BitVector, Port, Signal
+from cohdl import std
+
+
+class Stage(cohdl.Entity):
+    a = Port.input(BitVector[4])
+    y = Port.output(BitVector[4])
+
+    def architecture(self):
+        @std.concurrent
+        def logic():
+            self.y <<= self.a
+
+
+class Inv(Stage):
+    def architecture(self):
+        @std.concurrent
+        def logic():
+            self.y <<= ~self.a
+
+
+class Gated(Stage):
+    en = Port.input(Bit)
+
+    def architecture(self):
+        @std.concurrent
+        def logic():
+            self.y <<= self.a if self.en else ~self.a
+
+
+class Wide(Gated):
+    z = Port.output(BitVector[4])
+
+    def architecture(self):
+        @std.concurrent
+        def logic():
+            self.y <<= self.a
+            self.z <<= ~self.a if self.en else self.a
+
+
+class Top(cohdl.Entity):
+    a = Port.input(BitVector[8])
+    en = Port.input(Bit)
+    y = Port.output(BitVector[8])
+    z = Port.output(BitVector[4])
+
+    def architecture(self):
+        lo = Signal[BitVector[4]]()
+        hi = Signal[BitVector[4]]()
+        {insts}
+
+        @std.concurrent
+        def logic():
+            self.y <<= hi @ lo
+"""
+FAMILY_TOPS = {
+    "gated_only": "Gated(a=self.a[7:4], y=hi, en=self.en)\n        Wide(a=self.a[3:0], y=lo, en=self.en, z=self.z)",
+    "all": "Inv(a=self.a[3:0], y=lo)\n        Gated(a=self.a[7:4], y=hi, en=self.en)\n        Wide(a=hi, y=Signal[BitVector[4]](), en=self.en, z=self.z)",
+}
+_BV4 = lambda n, d: (n, d, "vec", "slv", 4)
+FAMILY_DECL = {
+    "Stage": [_BV4("a", "in"), _BV4("y", "out")],
+    "Inv": [_BV4("a", "in"), _BV4("y", "out")],
+    "Gated": [_BV4("a", "in"), _BV4("y", "out"), ("en", "in", "logic", "", 0)],
+    "Wide": [_BV4("a", "in"), _BV4("y", "out"), ("en", "in", "logic", "", 0), _BV4("z", "out")],
+    "Top": [("a", "in", "vec", "slv", 8), ("en", "in", "logic", "", 0), ("y", "out", "vec", "slv", 8), _BV4("z", "out")],
+}
+
+
+def run_family(ck):
+    """entity classes related through user-defined base entities (a usual way to generate leaf templates): a derived class
+    that declares ports of its own must not change the interface of its base or of its siblings.  Every class of the family
+    is compiled as a top entity after (and before) designs that instantiate its relatives; emitted interface = declaration."""
+    designs = []
+    for tn, insts in FAMILY_TOPS.items():
+        src = FAMILY_SRC.replace("{insts}", insts)
+        for ent in ("Top", "Stage", "Inv", "Gated", "Wide"):
+            designs.append({"name": f"family_{tn}_{ent}", "source": src, "entity": ent})
+    res = X.compile_designs(ck, designs)
+    for dsg, r in zip(designs, res):
+        ck.evaluations += 1
+        if not r["ok"]:
+            ck.obligation(False)
+            ck.violation({"case": dsg["name"], "family": "rejected"},
+                         "a design over a family of entity classes (base + derived entities) is no longer accepted: " + r["error"][:160],
+                         {"source": dsg["source"], "entity": dsg["entity"], "error": r.get("trace", r["error"])[-1500:]})
+            continue
+        try:
+            ents, _ = R.read_design(r["vhdl"], dsg["entity"])
+        except R.Unparsed as e:
+            ck.obligation(False)
+            ck.violation({"case": dsg["name"]}, "emitted VHDL left the parsed subset: " + str(e), {"source": dsg["source"], "vhdl": r["vhdl"]}, no_input=True)
+            continue
+        ck.obligation(check_interface(ck, ents, FAMILY_DECL, dsg["name"], dsg["source"]))
+        ck.nontrivial(dsg["name"])
+    ck.cov["entity_class_families"] = len(designs)
+
+
 def run(ck: common.Check, replay=None):
     ck.check_props("C12_Properties.v")
+    if replay is None:
+        run_family(ck)
     n = 40 if ck.tier == "quick" else 200
     items = []
     for k in range(n):
